@@ -159,12 +159,17 @@ Proof.
       split; congruence.
 Qed.
 
+(* [ids]: the order in which the set of implicit surfaces is walked.  Nothing
+   below depends on it: every statement holds for any list *)
+Section Walk.
+Variable ids : list N.
+
 Lemma expand_table_unfold cs t cells t' :
-  expand_table cs t = Ok (cells, t') ->
-  exists t1, implicit_pass cs (implicit_ids cs) t = Ok t1 /\
+  expand_table_with ids cs t = Ok (cells, t') ->
+  exists t1, implicit_pass cs ids t = Ok t1 /\
     apply_trcls cs t1 (N.succ (max_key t1)) = Ok (cells, t').
 Proof.
-  unfold expand_table. destruct (implicit_pass cs (implicit_ids cs) t) as [t1|]; [|discriminate].
+  unfold expand_table_with. destruct (implicit_pass cs ids t) as [t1|]; [|discriminate].
   destruct t1 as [|x r]; [discriminate|]. intros H. exists (x :: r). auto.
 Qed.
 
@@ -173,7 +178,7 @@ Qed.
    part count) of a parsed card *)
 Theorem expanded_table t cells t' cs :
   NoDup (map fst t) ->
-  expand_table cs t = Ok (cells, t') ->
+  expand_table_with ids cs t = Ok (cells, t') ->
   NoDup (map fst t') /\
   (forall k e, In (k, e) t -> In (k, e) t') /\
   (forall k e, In (k, e) t' -> inherits t e).
@@ -217,13 +222,13 @@ Qed.
 (* ---- the statements for a deck whose cells may carry TRCL ---------------- *)
 
 Lemma run_t_unfold cfg cards tcells out :
-  run_t cfg cards tcells = Ok out ->
+  run_t_with ids cfg cards tcells = Ok out ->
   exists t cells t', parse_cards cards [] = Ok t /\
-    expand_table tcells t = Ok (cells, t') /\
+    expand_table_with ids tcells t = Ok (cells, t') /\
     finish cfg t' (converted cells) = Ok out.
 Proof.
-  unfold run_t. destruct (parse_cards cards []) as [t|] eqn:Ep; [|discriminate].
-  destruct (expand_table tcells t) as [[cells t']|] eqn:Ea; [|discriminate].
+  unfold run_t_with. destruct (parse_cards cards []) as [t|] eqn:Ep; [|discriminate].
+  destruct (expand_table_with ids tcells t) as [[cells t']|] eqn:Ea; [|discriminate].
   intros H. exists t, cells, t'. auto.
 Qed.
 
@@ -233,8 +238,8 @@ Qed.
 Theorem bc_designates_present_same_locus_trcl cfg cards tcells t cells t' surfs bcs k e :
   skip_bc cfg = false ->
   parse_cards cards [] = Ok t ->
-  expand_table tcells t = Ok (cells, t') ->
-  run_t cfg cards tcells = Ok (surfs, bcs) ->
+  expand_table_with ids tcells t = Ok (cells, t') ->
+  run_t_with ids cfg cards tcells = Ok (surfs, bcs) ->
   In (k, e) t' -> (e_flag e = "*" \/ e_flag e = "+") ->
   (exists c, In c (converted cells) /\
              survives (negb (skip_dedup cfg)) (number_items t') (matching_of t') c /\
@@ -256,8 +261,8 @@ Qed.
 Theorem bc_entries_designate_written_trcl cfg cards tcells t cells t' surfs bcs :
   skip_bc cfg = false ->
   parse_cards cards [] = Ok t ->
-  expand_table tcells t = Ok (cells, t') ->
-  run_t cfg cards tcells = Ok (surfs, bcs) ->
+  expand_table_with ids tcells t = Ok (cells, t') ->
+  run_t_with ids cfg cards tcells = Ok (surfs, bcs) ->
   NoDup (map snd bcs) /\
   forall kd k', In (kd, k') bcs ->
     exists k e, In (k, e) t' /\ inherits t e /\ e_flag e <> "" /\
@@ -279,8 +284,8 @@ Qed.
 Theorem bc_designates_keys_trcl cfg cards tcells t cells t' surfs bcs kd k' :
   skip_bc cfg = false ->
   parse_cards cards [] = Ok t ->
-  expand_table tcells t = Ok (cells, t') ->
-  run_t cfg cards tcells = Ok (surfs, bcs) -> In (kd, k') bcs ->
+  expand_table_with ids tcells t = Ok (cells, t') ->
+  run_t_with ids cfg cards tcells = Ok (surfs, bcs) -> In (kd, k') bcs ->
   In k' (map fst t') /\ (k' <= max_key t')%N.
 Proof.
   intros Hs Hp Ha Hrun Hin.
@@ -294,7 +299,7 @@ Qed.
 (* no flagged card: no entry, whatever the cells and their TRCL *)
 Theorem unflagged_deck_no_entries cfg cards tcells surfs bcs :
   (forall t k e, parse_cards cards [] = Ok t -> In (k, e) t -> e_flag e = "") ->
-  run_t cfg cards tcells = Ok (surfs, bcs) -> bcs = [].
+  run_t_with ids cfg cards tcells = Ok (surfs, bcs) -> bcs = [].
 Proof.
   intros Hun Hrun.
   destruct (run_t_unfold _ _ _ _ Hrun) as [t [cells [t' [Hp [Ha Hfin]]]]].
@@ -319,10 +324,10 @@ Qed.
 Theorem macrobody_flag_stops_run_t cfg cards tcells t k e :
   skip_bc cfg = false -> parse_cards cards [] = Ok t ->
   In (k, e) t -> e_flag e <> "" -> (1 < e_mcnp e)%nat ->
-  exists err, run_t cfg cards tcells = Err err.
+  exists err, run_t_with ids cfg cards tcells = Err err.
 Proof.
-  intros Hs Hp Hin Hf Hm. unfold run_t. rewrite Hp.
-  destruct (expand_table tcells t) as [[cells t']|] eqn:Ea; [|eauto].
+  intros Hs Hp Hin Hf Hm. unfold run_t_with. rewrite Hp.
+  destruct (expand_table_with ids tcells t) as [[cells t']|] eqn:Ea; [|eauto].
   destruct (expanded_table _ _ _ _ (parsed_keys_distinct _ _ Hp) Ea) as [_ [Hsub _]].
   eapply macrobody_flag_stops_finish; eauto.
 Qed.
@@ -332,13 +337,13 @@ Qed.
 Theorem conflicting_flags_rejected_trcl cfg cards tcells t cells t' surfs k1 e1 k2 e2 :
   skip_bc cfg = false ->
   parse_cards cards [] = Ok t -> proper t ->
-  expand_table tcells t = Ok (cells, t') ->
+  expand_table_with ids tcells t = Ok (cells, t') ->
   geometry (negb (skip_dedup cfg)) t' (converted cells) = Ok surfs ->
   In (k1, e1) t' -> e_flag e1 = "*" -> In (k2, e2) t' -> e_flag e2 = "+" ->
   rep (negb (skip_dedup cfg)) (number_items t') k1 =
     rep (negb (skip_dedup cfg)) (number_items t') k2 ->
   In (rep (negb (skip_dedup cfg)) (number_items t') k1) (map fst surfs) ->
-  run_t cfg cards tcells = Err EValue.
+  run_t_with ids cfg cards tcells = Err EValue.
 Proof.
   intros Hs Hp Hpr Ha Egeo H1 Hf1 H2 Hf2 Hrep Hused.
   pose proof (parsed_keys_distinct _ _ Hp) as Hnd.
@@ -346,18 +351,18 @@ Proof.
   assert (Hpr' : proper t').
   { intros k e Hin. destruct (Hinh k e Hin) as [k0 [e0 [Hin0 [Hf Hm]]]].
     rewrite Hf, Hm. eapply Hpr; eauto. }
-  unfold run_t. rewrite Hp, Ha.
+  unfold run_t_with. rewrite Hp, Ha.
   eapply (finish_conflict cfg t' (converted cells) surfs k1 e1 k2 e2); assumption.
 Qed.
 
 (* every literal of a cell with TRCL gets a copy in the dictionary that
    carries the flag of the surface it names and the transformed descriptor *)
 Theorem trcl_copy_in_table cfg cards tcells out c l :
-  run_t cfg cards tcells = Ok out ->
+  run_t_with ids cfg cards tcells = Ok out ->
   In c tcells -> tc_trcl c = true -> In l (tc_lits c) ->
   exists t cells t' e k',
     parse_cards cards [] = Ok t /\
-    expand_table tcells t = Ok (cells, t') /\
+    expand_table_with ids tcells t = Ok (cells, t') /\
     dict_get (Z.abs_N (l_z l)) t' = Some e /\
     In (k', mkE (e_flag e) (e_mcnp e) (l_cls l) (l_aux l) (l_sides l)) t'.
 Proof.
@@ -387,6 +392,8 @@ Proof.
         inversion Ha; subst cells t2. eapply IH; eauto. }
   destruct Hcopy as [e [k' [H1 H2]]]. exists e, k'. auto.
 Qed.
+
+End Walk.
 
 (* ---- the TRCL decks that failed before the repair ------------------------ *)
 
@@ -438,8 +445,8 @@ Theorem run_t_plain cfg cards cs :
   (forall c z, In c cs -> In z (snd c) -> (Z.abs_N z < 1000)%N) ->
   run_t cfg cards (map plain cs) = run cfg cards (map one_part cs).
 Proof.
-  intros Hsmall. unfold run_t, run. destruct (parse_cards cards []) as [t|]; [|reflexivity].
-  unfold expand_table. rewrite implicit_pass_small.
+  intros Hsmall. unfold run_t, run_t_with, run. destruct (parse_cards cards []) as [t|]; [|reflexivity].
+  unfold expand_table_with. rewrite implicit_pass_small.
   - destruct t as [|x r]; [reflexivity|].
     rewrite apply_trcls_plain, converted_plain. reflexivity.
   - intros n Hn. unfold implicit_ids in Hn. apply (proj1 (sort_uniq_in _ _)) in Hn.
